@@ -201,7 +201,11 @@ def main(argv=None):
     fails, nondet_any = [], False
     coverage = {}
     if hasattr(mod, 'explore'):
-        res = mod.explore(tier, seed, a.jobs)
+        try:
+            res = mod.explore(tier, seed, a.jobs)
+        except Exception as e:
+            print('ERROR worker pool failed (%r): the run is incomplete and nothing it found is reported as a verdict' % (e,))
+            return 2
         coverage = res['coverage']
         fails = [(k, m, c, False, None) for (k, m, c) in res['fails']]
         exhaustive = coverage.get('exhaustive', True)
